@@ -29,7 +29,20 @@ fn write_archive(dir: &Path, bands: &Value) {
             if kind == "Symlink" {
                 j["target"] = e["target"].clone();
             }
-            if e["addr_raw"].is_object() {
+            if e["parts"].is_array() {
+                // a file stored in several blocks, each a run of zero bytes ("zero") or of the bytes of a content class
+                let mut addrs = Vec::new();
+                for p in e["parts"].as_array().unwrap() {
+                    let l = p[1].as_u64().unwrap() as usize;
+                    let data = if p[0] == "zero" { vec![0u8; l] } else { bytes_for(p[0].as_u64().unwrap_or(1), l) };
+                    let h = hex::encode(blake2_rfc::blake2b::blake2b(64, &[], &data).as_bytes());
+                    let sub = dir.join("d").join(&h[..3]);
+                    std::fs::create_dir_all(&sub).unwrap();
+                    std::fs::write(sub.join(&h), snap::raw::Encoder::new().compress_vec(&data).unwrap()).unwrap();
+                    addrs.push(json!({"hash": h, "len": l}));
+                }
+                j["addrs"] = json!(addrs);
+            } else if e["addr_raw"].is_object() {
                 // a decoded address exactly as the solver chose it: into the block of class `class`/`block_len`, or a missing block
                 let a = &e["addr_raw"];
                 let h = if a["present"].as_bool().unwrap_or(true) {
@@ -248,6 +261,26 @@ pub fn run(sc: &Value) -> Value {
         Ok(v) => v,
         Err(_) => json!({"panic": true}),
     };
+    // files built from parts: compare what was restored with what the archive was given
+    let mut content_mismatches = Vec::new();
+    if band.is_some() || true {
+        for b in sc["bands"].as_array().unwrap() {
+            for e in b["entries"].as_array().unwrap() {
+                if let Some(parts) = e["parts"].as_array() {
+                    let mut want = Vec::new();
+                    for p in parts {
+                        let l = p[1].as_u64().unwrap() as usize;
+                        want.extend(if p[0] == "zero" { vec![0u8; l] } else { bytes_for(p[0].as_u64().unwrap_or(1), l) });
+                    }
+                    let rel = e["path"].as_str().unwrap().trim_start_matches('/');
+                    if std::fs::read(dest.join(rel)).ok().as_deref() != Some(&want[..]) {
+                        content_mismatches.push(e["path"].clone());
+                    }
+                }
+            }
+        }
+    }
+    out["content_mismatches"] = json!(content_mismatches);
     out["outside_changed"] = json!(bo != ao);
     out["outside_after"] = json!(ao);
     out["inside_after"] = json!(after_all.iter().filter(|v| v["path"].as_str().unwrap().starts_with("/dest")).cloned().collect::<Vec<_>>());
